@@ -14,7 +14,10 @@ Inductive case :=
 | CsRead (which : N) (b : bytes) (o : outcome (N * N) unit)
 | CsWrite (which : N) (n : N) (o : outcome bytes unit)
 | VecU8 (b : bytes) (o : outcome (bytes * N) unit)
-| OptU32 (b : bytes) (o : outcome (option N * N) unit).
+| OptU32 (b : bytes) (o : outcome (option N * N) unit)
+| ReadT (w : N) (b : bytes) (o : outcome (N * N) unit)
+| VecFill (api : N) (b : bytes) (fill : N) (o : outcome (N * N) N)
+| ArrFill (count : N) (b : bytes) (fill : N) (o : outcome (N * N) N).
 
 (** The validity oracle of a case: the blobs listed by the harness are those a primitive decoder
     (jubjub, bls12_381, pasta_curves, redjubjub) rejected; everything else counts as valid. *)
@@ -26,6 +29,9 @@ Definition table_valid (bad : list (N * bytes)) (k : N) (x : bytes) : bool :=
     re-serialisation is the same transaction (theorem [tx_reparse]) and a generated transaction
     parses to itself (theorem [tx_roundtrip]), so both flags are predicted [true]; the model is a
     function of the bytes only, so every reader kind must give the same result. *)
+Definition fill_eqb : outcome (N * N) N -> outcome (N * N) N -> bool :=
+  outcome_eqb (pair_eqb N.eqb N.eqb) N.eqb.
+
 Definition run_caseH (H : bytes -> bytes) (c : case) : bool :=
   match c with
   | Tx _ ctx b bad o alts =>
@@ -74,6 +80,29 @@ Definition run_caseH (H : bytes -> bytes) (c : case) : bool :=
       | None, Err _ => true
       | _, _ => false
       end
+  | ReadT w b o =>
+      match dec (c_read_t w) b, o with
+      | Some (v, r), Ok (v', n) => (v =? v') && (n + nlen r =? nlen b)
+      | None, Err _ => true
+      | _, _ => false
+      end
+  | VecFill _ b fill o =>
+      fill_eqb (vecfill_model b fill) o
+      && (* short streams: also through the vector codec itself *)
+         (if 2048 <? nlen b + fill then true else
+          match dec (c_vec MX c_u8) (b ++ repeat 0 (N.to_nat fill)), o with
+          | Some (l, r), Ok (n, c) => (nlen l =? n) && (c + nlen r =? nlen b + fill)
+          | None, Err _ => true
+          | _, _ => false
+          end)
+  | ArrFill count b fill o =>
+      fill_eqb (arrfill_model count b fill) o
+      && (if (2048 <? nlen b + fill) || (2048 <? count) then true else
+          match dec (c_rep c_u8 (N.to_nat count)) (b ++ repeat 0 (N.to_nat fill)), o with
+          | Some (l, r), Ok (n, c) => (nlen l =? n) && (c + nlen r =? nlen b + fill)
+          | None, Err _ => true
+          | _, _ => false
+          end)
   end.
 
 Definition cs_out_eqb (a : option (N * N)) (o : outcome (N * N) unit) : bool :=
@@ -106,6 +135,9 @@ Definition prop_caseH (H : bytes -> bytes) (c : case) : bool :=
       | None, Err _ => true
       | _, _ => false
       end
+  | ReadT w b o => cs_out_eqb (readt_spec (target_bits w) b) o
+  | VecFill _ b fill o => vecfill_prop (nlen b + fill) (stream_head b fill) o
+  | ArrFill count b fill o => arrfill_prop count (nlen b + fill) o
   end.
 
 (** what the generated case files evaluate: the identifier hash is SHA-256d *)
@@ -128,5 +160,8 @@ Definition tag_case (c : case) : N :=
   | CsRead which _ o => 300 + which * 3 + match o with Err _ => 0 | Ok _ => 1 | Panic => 2 end
   | CsWrite which _ o => 310 + which * 3 + match o with Err _ => 0 | Ok _ => 1 | Panic => 2 end
   | VecU8 _ o => 320 + match o with Err _ => 0 | Ok _ => 1 | Panic => 2 end
+  | ReadT w _ o => 340 + w + match o with Err _ => 0 | Ok _ => 1 | Panic => 2 end
+  | VecFill api b fill o => 420 + api * 6 + match o with Err c => if c <=? 9 then 0 else 1 | Ok _ => 2 | Panic => 3 end + (if 1000000 <? fill then 3 else 0)
+  | ArrFill _ _ _ o => 450 + match o with Err _ => 0 | Ok _ => 1 | Panic => 2 end
   | OptU32 _ o => 330 + match o with Err _ => 0 | Ok (None, _) => 1 | Ok (Some _, _) => 2 | Panic => 3 end
   end.
